@@ -10,7 +10,10 @@ import Glom.Model.C05
     3. the last target shown before the innermost failing spec's line is the target that spec
        actually received;
     4. for every spine call, every directly attempted sub-evaluation that failed and was caught
-       (a branch) appears with its spec and with the error that ended it.
+       (a branch) appears with its spec and with the error that ended it;
+    5. the listing goes down to the failing spec and no further into what returned normally: after
+       the last top-level `Spec:` line of a spine call, every further top-level `Spec:` line shows
+       a call that raised or a completed step of a chain that raised.
 -/
 namespace Glom.C05
 
@@ -132,7 +135,35 @@ def targetsAtLastSpec (lines : List Str) (inner : CallInfo) : List Str :=
         | none => go rest tg1 found
   go lines [] []
 
-/-- the four clauses of the property, separately (for diagnosis); `checkC05` is their conjunction -/
+/-- (frame of the previous step, call) for every call entered through `chain_child` with a frame
+    handed on (flagged NO_PYFRAME) -/
+def chainedEnters (evs : List Ev) : List (Nat × Nat) :=
+  let rec go : List Ev → Nat → List (Nat × Nat) → List (Nat × Nat)
+    | [], _, acc => acc
+    | .enter p fl _ _ _ _ _ :: rest, next, acc => go rest (next + 1) (if fl then acc ++ [(p, next)] else acc)
+    | _ :: rest, next, acc => go rest next acc
+  go evs 1 []
+
+/-- the call raised, or it is a completed step of a chain a later step of which raised (the calls
+    that are part of some error; a call that returned normally and whose chain returned is not) -/
+def raisedOrChain (calls : List CallInfo) (ch : List (Nat × Nat)) : Nat → Nat → Bool
+  | 0, _ => false
+  | fuel + 1, idx =>
+    calls.any (fun c => c.idx == idx && c.result.isSome) ||
+    ch.any (fun pd => pd.1 == idx && raisedOrChain calls ch fuel pd.2)
+
+/-- 5. below the failing spec nothing that returned normally: after the last top-level `Spec:` line
+    showing a call the root error propagated through, every further top-level `Spec:` line shows a
+    call that raised (a failed branch shown linearly) or a completed step of a chain that raised -/
+def nothingReturnedBelow (evs : List Ev) (calls sp : List CallInfo) (lines : List Str) : Bool :=
+  let ch := chainedEnters evs
+  let top := (lines.filter (fun l => (gutter l).1 == 0)).filterMap (afterLabel "Spec".toList)
+  top.foldl (fun ok shown =>
+    if sp.any (fun c => showsValue c.spec c.slen shown) then true
+    else ok && calls.any (fun c => showsValue c.spec c.slen shown && raisedOrChain calls ch (calls.length + 1) c.idx))
+    true
+
+/-- the clauses of the property, separately (for diagnosis); `checkC05` is their conjunction -/
 def clausesC05 (evs : List Ev) (errText : Nat → Str) (rootError : Nat) (text : String) : List Bool :=
   let calls := callsOf evs
   let sp := spine calls rootError
@@ -155,7 +186,9 @@ def clausesC05 (evs : List Ev) (errText : Nat → Str) (rootError : Nat) (text :
         specLines.any (showsValue b.spec b.slen) &&
         (match b.result with
          | some e => isInfix (errText e) text.toList
-         | none => true))) ]
+         | none => true))),
+      -- 5. nothing that returned normally is listed below the failing spec
+      nothingReturnedBelow evs calls sp lines ]
   | _, _ => [false]
 
 def rstrip (s : Str) : Str := (s.reverse.dropWhile (fun c => c == ' ' || c == '\n' || c == '\t')).reverse
